@@ -299,7 +299,10 @@ def e2e_sync(v, U, snap, scratch, rng, case, k):
         # now and are met by the scan; they must stay out of the array and the second sync must find nothing to do
         rc, out = arr.run("sync")
         if rc != 0:
-            raise vlib.ToolFailure("second sync failed (rc %d) in e2e scenario %s: %s" % (rc, arr.conf_text, out[-5:]))
+            v.violation("a second sync, which meets the tool's own files (content copies inside the data disks and their .lock / "
+                        ".tmp companions) during the scan, fails with status %d: rules %s nohidden=%d: %s" % (rc, rules, h, out[-4:]),
+                        {"kind": "e2e-sync", "scenario": {"config": arr.conf_text[6:], "nohidden": h, "rules": [list(r) for r in rules]}})
+            return 0, 0, 1, {"config": arr.conf_text[6:]}
         rc, out = arr.run("list")
         files, links, ok = listed(out)
         if rc != 0 or not ok:
